@@ -107,7 +107,7 @@ def run(ctx, rep):
         sw = None
         for bb in b.normal_blocks():
             t = b.term(bb)
-            if t["k"] == "switch" and re.match(r"^Gt\(.*\.default_count, K0\)$", flow.describe(b, t["d"])):
+            if t["k"] == "switch" and re.match(r"^(Gt\(.*\.default_count, K0\)|Ne\(.*\.default_count, K0\)|Ge\(.*\.default_count, K1\))$", flow.describe(b, t["d"])):
                 if sw is None or b.dominates(bb, sw):
                     sw = bb
         if sw is None:
